@@ -98,6 +98,7 @@ def run(repo, rep, tier):
         "R18.2", cd2.qualname, "a data attribute without a second hyphen "
         "(data-role) is left alone: the loop moves on",
         construct="data-name-without-prefix-skipped", where=L.where(cd2))
+    L.whitelist_rule(repo, rep, "R18.2", None)
     L.state_rule(repo, rep)
 
 
@@ -566,7 +567,8 @@ def _keyed(repo, rep):
             continue
         n += 1
         conds = [(src(e[1]), e[2]) for e in p if e[0] == "cond"]
-        lang = any(all(x in c for x in LANG) and
+        import re as _re
+        lang = any(LANG <= set(_re.findall(r"[A-Z0-9_]+", c)) and
                    (("not in" in c and not v) or
                     (" in " in c and "not in" not in c and v))
                    for c, v in conds)
